@@ -40,7 +40,7 @@ def main():
     prop, mdir, wt = sys.argv[1], sys.argv[2].rstrip("/"), sys.argv[3]
     extra = sys.argv[4:]
     meta = json.load(open(os.path.join(mdir, "meta.json")))
-    name = os.path.basename(mdir)
+    name = os.environ.get("SEED_PREFIX", "") + os.path.basename(mdir)
     verdict = dict(property=prop, name=name, summary=meta.get("summary"))
     sh("git checkout -- . && git clean -fdq", cwd=wt)
     demo_dir = os.path.join(wt, meta["demo_pkg_dir"])
